@@ -56,6 +56,8 @@ fn pname(p: &AzksParallelismConfig) -> &'static str {
 struct Twin {
     after_victim: EpochHash,
     after_followup: EpochHash,
+    after_alt: EpochHash,
+    after_alt_followup: EpochHash,
     victim_log: Vec<OpRec>,
     n_ops: u64,
     commit_idx: Option<u64>,
@@ -142,6 +144,16 @@ fn run_case<TC: Configuration>(ctx: &Ctx, cc: &CaseCtx, rng: &mut Rng, l: &mut L
         victim.push((format!("new-{}-x", cc.idx).into_bytes(), b"nv".to_vec()));
     }
     let followup: Batch = vec![(victim[0].0.clone(), b"after-1".to_vec()), (format!("fu-{}", cc.idx).into_bytes(), b"after-2".to_vec())];
+    // a DIFFERENT later publish (the property speaks of "a later publish", not only of a retry): part of the
+    // victim's labels with other values, plus a label of its own
+    let mut alt: Batch = victim.iter().filter(|_| rng.chance(1, 2)).map(|(l, _)| (l.clone(), b"alt-value".to_vec())).collect();
+    alt.push((format!("alt-{}", cc.idx).into_bytes(), b"alt-new".to_vec()));
+    let mut model_retry = model.clone();
+    model_retry.apply(&victim);
+    model_retry.apply(&followup);
+    let mut model_alt = model.clone();
+    model_alt.apply(&alt);
+    model_alt.apply(&followup);
 
     // ---- build the prefix state once (fault free)
     let base_db = block_on(async {
@@ -185,7 +197,7 @@ fn run_case<TC: Configuration>(ctx: &Ctx, cc: &CaseCtx, rng: &mut Rng, l: &mut L
         // ---- dry run = the fault-free twin
         let twin = {
             let base = base_db.clone();
-            let (victim, followup, model) = (victim.clone(), followup.clone(), model.clone());
+            let (victim, followup, model, alt2) = (victim.clone(), followup.clone(), model.clone(), alt.clone());
             let v2 = Variant { cache: v.cache, par: v.par, rt: v.rt };
             let fut = async move {
                 let db = XDb::over(deep_copy(&base).await);
@@ -198,19 +210,24 @@ fn run_case<TC: Configuration>(ctx: &Ctx, cc: &CaseCtx, rng: &mut Rng, l: &mut L
                 db.ctl.set_log(false);
                 let n_ops = db.ctl.n_ops();
                 let b = dir.publish(akd_batch(&followup)).await;
-                (a, b, log, n_ops)
+                // the twin of the "different later publish" variant: it never sees the victim
+                let db2 = XDb::over(deep_copy(&base).await);
+                let (_m2, dir2) = open::<TC>(db2.clone(), &v2).await.expect("open");
+                let c = dir2.publish(akd_batch(&alt2)).await;
+                let d = dir2.publish(akd_batch(&followup)).await;
+                (a, b, c, d, log, n_ops)
             };
-            let (a, b, log, n_ops) = match &multi_rt {
+            let (a, b, c, d, log, n_ops) = match &multi_rt {
                 Some(rt) => rt.block_on(fut),
                 None => block_on(fut),
             };
-            match (a, b) {
-                (Ok(a), Ok(b)) => {
+            match (a, b, c, d) {
+                (Ok(a), Ok(b), Ok(c), Ok(d)) => {
                     let commit_idx = log.iter().find(|r| r.info.kind == OpKind::BatchSetCommit).map(|r| r.info.idx);
-                    Twin { after_victim: a, after_followup: b, victim_log: log, n_ops, commit_idx }
+                    Twin { after_victim: a, after_followup: b, after_alt: c, after_alt_followup: d, victim_log: log, n_ops, commit_idx }
                 }
-                (a, b) => {
-                    l.inconclusive(format!("fault-free twin failed: {:?} {:?}", a.err().map(|e| e.to_string()), b.err().map(|e| e.to_string())));
+                _ => {
+                    l.inconclusive("fault-free twin failed".to_string());
                     return;
                 }
             }
@@ -224,8 +241,14 @@ fn run_case<TC: Configuration>(ctx: &Ctx, cc: &CaseCtx, rng: &mut Rng, l: &mut L
                     let base = base_db.clone();
                     let (victim2, followup2, model2) = (victim.clone(), followup.clone(), model.clone());
                     let v2 = Variant { cache: v.cache, par: v.par, rt: v.rt };
-                    let twin_av = twin.after_victim.clone();
-                    let twin_af = twin.after_followup.clone();
+                    // one-shot runs alternate between "retry the same batch" and "a different later publish";
+                    // sticky runs use the other one, so every k sees both
+                    let use_alt = (k + sticky as u64 + rep) % 2 == 1;
+                    let (later, model_after, twin_av, twin_af) = if use_alt {
+                        (alt.clone(), model_alt.clone(), twin.after_alt.clone(), twin.after_alt_followup.clone())
+                    } else {
+                        (victim.clone(), model_retry.clone(), twin.after_victim.clone(), twin.after_followup.clone())
+                    };
                     let dry_kind = twin.victim_log.iter().find(|r| r.info.idx == k).map(|r| r.info.kind);
                     let phase = match twin.commit_idx {
                         Some(c) if k == c => "commit-write",
@@ -242,7 +265,7 @@ fn run_case<TC: Configuration>(ctx: &Ctx, cc: &CaseCtx, rng: &mut Rng, l: &mut L
                     let fut = async move {
                         let mut l = Local::with_known(known);
                         l.case_id = case_id;
-                        inject_one::<TC>(&mut l, base, &v2, &model2, prev_epoch, &victim2, &followup2, k, sticky, connection, &twin_av, &twin_af, &sig_base, detail, phase, dry_kind, shape).await;
+                        inject_one::<TC>(&mut l, base, &v2, &model2, prev_epoch, &victim2, &followup2, k, sticky, connection, &twin_av, &twin_af, &sig_base, detail, phase, dry_kind, shape, &later, use_alt, &model_after).await;
                         l
                     };
                     let sub = run(Box::pin(fut));
@@ -291,6 +314,9 @@ async fn inject_one<TC: Configuration>(
     phase: &str,
     dry_kind: Option<OpKind>,
     shape: &str,
+    later: &Batch,
+    later_is_different: bool,
+    model_after: &Model,
 ) {
     l.eval(1);
     l.count("injected_runs", 1);
@@ -412,14 +438,18 @@ async fn inject_one<TC: Configuration>(
     }
     l.count("post_failure_state_checks_passed", 1);
     // (e) the retry succeeds and equals the twin
-    match dir.publish(akd_batch(victim)).await {
+    let later_name = if later_is_different { "later-publish" } else { "retry" };
+    if later_is_different {
+        l.count("different_later_publishes", 1);
+    }
+    match dir.publish(akd_batch(later)).await {
         Ok(eh) if eh == *twin_after_victim => l.count("retries_matching_twin", 1),
         Ok(eh) => {
-            fail(l, "retry-diverges-from-twin", format!("retry returned ({}, {}) but the fault-free twin ended at ({}, {})", eh.0, hx(&eh.1), twin_after_victim.0, hx(&twin_after_victim.1)));
+            fail(l, &format!("{later_name}-diverges-from-twin"), format!("{later_name} returned ({}, {}) but a twin that never saw the failed call ended at ({}, {})", eh.0, hx(&eh.1), twin_after_victim.0, hx(&twin_after_victim.1)));
             return;
         }
         Err(e) => {
-            fail(l, "retry-failed", format!("the retry of the same publish (faults off) failed: {e}"));
+            fail(l, &format!("{later_name}-failed"), format!("the {later_name} after the failed call (faults off) failed: {e}"));
             return;
         }
     }
@@ -435,11 +465,37 @@ async fn inject_one<TC: Configuration>(
             return;
         }
     }
-    for (lab, _) in victim.iter().take(2) {
+    let fe = model_after.epoch;
+    for lab in model_after.labels() {
+        let want = model_after.latest(&lab, fe).cloned().unwrap();
         match dir.lookup(AkdLabel(lab.clone())).await {
-            Ok((p, eh)) if eh == *twin_after_followup && akd::client::lookup_verify::<TC>(&pk, eh.1, eh.0, AkdLabel(lab.clone()), p.clone()).is_ok() => {}
+            Ok((p, eh)) if eh == *twin_after_followup => match akd::client::lookup_verify::<TC>(&pk, eh.1, eh.0, AkdLabel(lab.clone()), p) {
+                Ok(vr) if ver_matches(&want, &vr) => {}
+                _ => {
+                    fail(l, "recovered-lookup-diverges", format!("after recovery the lookup of {} does not verify to the state a never-failed directory has", hx(&lab)));
+                    return;
+                }
+            },
             _ => {
-                fail(l, "followup-lookup-diverges", format!("lookup of {} after retry+follow-up does not verify against the twin's epoch hash", hx(lab)));
+                fail(l, "recovered-lookup-diverges", format!("after recovery the lookup of {} fails or names another epoch hash than the twin", hx(&lab)));
+                return;
+            }
+        }
+        let wanth = model_after.history(&lab, fe);
+        match dir.key_history(&AkdLabel(lab.clone()), HistoryParams::Complete).await {
+            Ok((p, eh)) => {
+                let ok = eh == *twin_after_followup
+                    && match akd::client::key_history_verify::<TC>(&pk, eh.1, eh.0, AkdLabel(lab.clone()), p, HistoryVerificationParams::default()) {
+                        Ok(rs) => rs.len() == wanth.len() && rs.iter().zip(wanth.iter()).all(|(r, w)| ver_matches(w, r)),
+                        Err(_) => false,
+                    };
+                if !ok {
+                    fail(l, "recovered-history-diverges", format!("after recovery the history of {} does not verify to the state a never-failed directory has", hx(&lab)));
+                    return;
+                }
+            }
+            Err(e) => {
+                fail(l, "recovered-history-fails", format!("after recovery key_history of {} fails: {e}", hx(&lab)));
                 return;
             }
         }
